@@ -223,6 +223,16 @@ func genHist(rng *rand.Rand, nops int) hist {
 				o.LP = uint32(50 + rng.IntN(200))
 			}
 			for n := rng.IntN(3); n > 0; n-- {
+				// one hop in five is an AS of the monitored topology itself: the monitored router's own AS (a looped or
+				// allowas-in announcement as a pre-policy Adj-RIB-In shows it), the other router's, the announcing peer's
+				// (prepending) or another peer's. The receiver only mirrors: none of them is a loop for it.
+				if rng.IntN(5) == 0 {
+					own := []uint32{h.Routers[r].LocalAS, h.Routers[r].LocalAS, h.Routers[1-r].LocalAS, pd.AS, h.Routers[r].Peers[rng.IntN(3)].AS}[rng.IntN(5)]
+					if !pd.TwoByte || own <= 65535 {
+						o.Path = append(o.Path, own)
+						continue
+					}
+				}
 				if pd.TwoByte {
 					o.Path = append(o.Path, uint32(64600+rng.IntN(50)))
 				} else {
@@ -570,6 +580,7 @@ type rig struct {
 
 type stats struct {
 	msgs, checks, rm, addpathMulti, reconnects, peerdowns, observers, twoPeersSamePrefix int
+	ownASAnnounced int // paths announced whose AS_PATH (beyond the neighbour hop) holds the monitored router's own AS
 }
 
 func runHist(h hist, st *stats, viol func(clause string, f map[string]string, detail string)) {
@@ -752,6 +763,9 @@ func runHist(h hist, st *stats, viol func(clause string, f map[string]string, de
 						delete(t, key{src, pfxString(universe[e.P], fam), e.ID})
 					}
 					for _, e := range ann {
+						if len(o.Path) > 1 && strings.Contains(" "+pathString(o.Path[1:])+" ", fmt.Sprintf(" %d ", h.Routers[o.R].LocalAS)) || (len(o.Path) > 0 && o.LP != 0 && strings.Contains(" "+a.Path+" ", fmt.Sprintf(" %d ", h.Routers[o.R].LocalAS))) {
+							st.ownASAnnounced++
+						}
 						a.NH = nh
 						k := key{src, pfxString(universe[e.P], fam), e.ID}
 						t[k] = a
@@ -924,8 +938,8 @@ func compare(want, got table, viol func(clause, detail string)) {
 func main() {
 	bmprig.Quiet()
 	vf.Main("C28", "exploration", func(r *vf.Run) {
-		r.Rule("PRNG histories over 2 routers x 3 peers (IPv4/IPv6 peer addresses, eBGP/iBGP, 2- and 4-octet AS, A flag, add-path per OPEN pair, optionally the same address in both VRFs) x 2 VRFs (peer distinguisher 0 and 65000:100), 7 IPv4 and 5 IPv6 prefixes (parent/child, siblings, default, host routes): connect, initiation, peer up, route monitoring (IPv4 NLRI, MP_REACH/MP_UNREACH IPv6, withdrawals, mixed UPDATEs; each announcement with a unique next hop and community), statistics, observer registration, peer down, termination, connection loss (EOF/reset), reconnect; each peer uses one view (pre- or post-policy), 1/8 of the histories mix views and are judged only for panics, leftovers of down peers and the after-loss clauses; half of the histories go through the connection, half through VerifProcessMsg. distinct_nontrivial = histories with a peer down while it had routes, a reconnect, an observer registered while routes existed, two peers announcing one prefix and (non-mixed) an add-path peer holding two paths of one prefix")
-		r.Assume("AS paths never contain an AS bio-rd would treat as a loop and eBGP paths are not empty (such paths are hidden by the Adj-RIB-In; the statement does not speak about them)",
+		r.Rule("PRNG histories over 2 routers x 3 peers (IPv4/IPv6 peer addresses, eBGP/iBGP, 2- and 4-octet AS, A flag, add-path per OPEN pair, optionally the same address in both VRFs) x 2 VRFs (peer distinguisher 0 and 65000:100), 7 IPv4 and 5 IPv6 prefixes (parent/child, siblings, default, host routes): connect, initiation, peer up, route monitoring (IPv4 NLRI, MP_REACH/MP_UNREACH IPv6, withdrawals, mixed UPDATEs; each announcement with a unique next hop and community; AS_PATH = neighbour AS on eBGP plus 0-2 further hops, one in five of them an AS of the monitored topology itself: the monitored router's own AS, the other router's, the announcing or another peer's), statistics, observer registration, peer down, termination, connection loss (EOF/reset), reconnect; each peer uses one view (pre- or post-policy), 1/8 of the histories mix views and are judged only for panics, leftovers of down peers and the after-loss clauses; half of the histories go through the connection, half through VerifProcessMsg. distinct_nontrivial = histories with a peer down while it had routes, a reconnect, an observer registered while routes existed, two peers announcing one prefix and (non-mixed) an add-path peer holding two paths of one prefix")
+		r.Assume("eBGP paths are not empty (such paths are hidden by the Adj-RIB-In; the statement does not speak about them); the receiver itself has no AS, so no AS_PATH is a loop for it: a path that contains the monitored router's own AS is an announced route like any other",
 			"LOCAL_PREF is compared only when announced (bio-rd defaults it to 100 on eBGP sessions)",
 			"one UPDATE mentions a prefix at most once")
 		mk := func(h hist) func(string, map[string]string, string) {
@@ -956,6 +970,7 @@ func main() {
 			r.Count("sessions", st.reconnects)
 			r.Count("observers", st.observers)
 			r.Count("addpath_second_path_events", st.addpathMulti)
+			r.Count("paths_announced_with_the_monitored_routers_own_as", st.ownASAnnounced)
 			if h.Mixed {
 				r.Count("mixed_view_histories", 1)
 			}
@@ -971,5 +986,6 @@ func main() {
 		})
 		r.Require("route_monitoring_messages", 10000)
 		r.Require("addpath_second_path_events", 100)
+		r.Require("paths_announced_with_the_monitored_routers_own_as", 200)
 	})
 }
